@@ -81,7 +81,7 @@ TEXT = {
     },
     "C17": {
         "technique": "runtime monitor: function hook vs linear-scan reference; small scope enumerated completely, larger scopes sampled",
-        "level": "Exhaustive over the stated small scope (8420 rule lists x 85 feature lists), sampled beyond it.",
+        "level": "Exhaustive over the stated small scope (27 930 rule lists x 85 feature lists), sampled beyond it.",
         "note": "The hook runs the real parser and the real trie matcher; only the reference is mine.",
     },
     "C18": {
